@@ -1,7 +1,9 @@
 (* Broker/InvProofsTerm.v — the work loop terminates: from every [MI] machine some amount of fuel
    lets [settle] finish with Done.  Measure (lexicographic): number of connections, total length
    of the work queues other than w_remove_conns, length of w_remove_conns.  Removing a connected
-   connection decreases the first; every other work item only ever queues connection removals. *)
+   connection decreases the first; every other work item only ever queues connection removals.
+   The EXPLICIT bound (the model's own [fuel_for] suffices, fuel site 0 unreachable) is proved in
+   Broker/FuelProofs.v with a numeric potential; this file gives existence and fuel-independence. *)
 From stdpp Require Import gmap list.
 From RecordUpdate Require Import RecordSet.
 Import RecordSetNotations.
